@@ -633,6 +633,10 @@ def run(tier, args):
         "or-mem-all-ones, c996df8 reg-to-mem-32bit-rmw, 7d1fabd reg-to-mem-high-byte, b6ac079 reg-to-mem-kmovw, 7106f2f vector-argument-avx512, 9b5029b "
         "unreachable-predecessor, c1e90ec a64-tbl-register-list, d818bc6 vpternlog-merge-masked, 7a2ee99 same-reg-hint-different-views, 7a2ee99+86fe1c1 "
         "same-reg-idiom-narrow(+vector); with d818bc6 or 7a2ee99 reverted the random generator alone also alarms (avx512/mixed resp. partial profile)",
+        "helper callees: 34 fixed signatures with 0..14 integer and 0..12 double arguments (up to 96 bytes of stack arguments), called in random order "
+        "inside one function (profiles calls, calls512, calls-stack: big call before small call and the reverse, spill slots and new_stack() memory live "
+        "across the calls); probe call-stack-area-max-over-invokes = big call then small call. Seeded change C07-3 (set_call_stack_size instead of "
+        "update_call_stack_size in on_before_invoke) is caught by that probe and by x64:miscompile/crash/hang keys of every profile with calls",
         "not generated: calling conventions other than SysV/cdecl for helper calls (x86-32: cdecl/stdcall/fastcall function signatures are compiled only), "
         "MMX/x87 registers, ms_abi callees, string instructions with REP",
     ]
